@@ -2,8 +2,8 @@ package interp
 
 import (
 	"fmt"
-	"os"
 	"go/types"
+	"os"
 	"sort"
 	"strings"
 	"time"
@@ -69,22 +69,24 @@ type PathResult struct {
 	Steps       int
 	Unknowns    int
 	Unsupported string
+	Races       []string
 }
 
 type Config struct {
-	MaxSteps       int // per path instruction budget
-	MaxDecisions   int // per path
-	MaxBlockVisits int // per frame per block (unwinding assertion)
-	MaxConc        int // distinct values per concretisation point
-	MapOrderAll    bool
-	MapOrderSeeds     int  // with MapOrderAll: explore this many seeded assignments of start offsets to the map ranges of a path
-	MapOrderRotations bool // with MapOrderAll: only the rotations of the insertion order (Go's order for maps of <= 8 entries)
-	KnownOpen      map[string]bool // known finding ids with status open
-	SolverKind     string
-	TimeoutMs      int
-	Trace          bool
-	SymbolicNanos  bool
-	Bounds         map[string]int
+	MaxSteps          int // per path instruction budget
+	MaxDecisions      int // per path
+	MaxBlockVisits    int // per frame per block (unwinding assertion)
+	MaxConc           int // distinct values per concretisation point
+	MapOrderAll       bool
+	MapOrderSeeds     int             // with MapOrderAll: explore this many seeded assignments of start offsets to the map ranges of a path
+	MapOrderRotations bool            // with MapOrderAll: only the rotations of the insertion order (Go's order for maps of <= 8 entries)
+	KnownOpen         map[string]bool // known finding ids with status open
+	SolverKind        string
+	TimeoutMs         int
+	Trace             bool
+	SymbolicNanos     bool
+	Bounds            map[string]int
+	SyncFiles         []string // files under test whose lock acquisitions are scheduling points of the thread layer
 }
 
 // Machine is one worker: an interpreter with its own term context and solver.
@@ -100,49 +102,50 @@ type Machine struct {
 	initDone map[*ssa.Package]bool
 
 	// per-path state
-	prefix    []Decision
-	pos       int
-	decisions []Decision
-	pc        []*sym.Term // all path constraints
-	sent      int         // how many of pc are asserted in the solver
-	known     map[*sym.Term]bool
-	model     sym.Model
-	memo      map[*sym.Term]uint64
-	res       *PathResult
-	steps     int
-	nondetSeq map[string]int
-	regions   []region
-	choiceLog map[string]uint64
-	varOrder  []string
-	nowSeq    int
-	lastNow   *sym.Term
-	nowNsec   *sym.Term
-	prefer    []*sym.Term
-	liftOK    map[liftKey]bool
-	liftMemo  map[*sym.Term]*sym.Term
-	mulMemo   map[*sym.Term]bool
-	watch     map[*Value]string
-	watchHits []string
-	opaqueSeq int
-	hashLog   []hashRec
-	depth     int
-	cur       *frame
-	marks     map[string]int
-	hashers   map[*Value]*hasher
-	forkSites map[string]int
-	peers     map[string][]*sym.Term
+	prefix       []Decision
+	pos          int
+	decisions    []Decision
+	pc           []*sym.Term // all path constraints
+	sent         int         // how many of pc are asserted in the solver
+	known        map[*sym.Term]bool
+	model        sym.Model
+	memo         map[*sym.Term]uint64
+	res          *PathResult
+	steps        int
+	nondetSeq    map[string]int
+	regions      []region
+	choiceLog    map[string]uint64
+	varOrder     []string
+	nowSeq       int
+	lastNow      *sym.Term
+	nowNsec      *sym.Term
+	prefer       []*sym.Term
+	liftOK       map[liftKey]bool
+	liftMemo     map[*sym.Term]*sym.Term
+	mulMemo      map[*sym.Term]bool
+	watch        map[*Value]string
+	watchHits    []string
+	opaqueSeq    int
+	hashLog      []hashRec
+	depth        int
+	cur          *frame
+	marks        map[string]int
+	hashers      map[*Value]*hasher
+	forkSites    map[string]int
+	peers        map[string][]*sym.Term
 	mapOrderSeed int
 	snapSeq      int
 	havocFamily  int
 	havocCalls   int
 	mapRangeNo   int
-	inInit    bool
-	implCache map[string]bool
-	spawnHook func(fr *frame, fn Value, args []Value, site *ssa.CallCommon)
-	watchMaps map[*MapV]string
-	syncHook  func(op string, mu *Value)
-	syncMaps  map[*Value]*MapV
+	inInit       bool
+	implCache    map[string]bool
+	spawnHook    func(fr *frame, fn Value, args []Value, site *ssa.CallCommon)
+	watchMaps    map[*MapV]string
+	syncHook     func(op string, mu *Value)
+	syncMaps     map[*Value]*MapV
 	initProblems []string
+	tl           *threadLayer
 
 	// tables
 	intrinsics map[string]intrinsic
@@ -289,6 +292,7 @@ func (m *Machine) RunPath(entry *ssa.Function, item workItem) (res *PathResult) 
 	m.slv.Reset()
 	m.pr.Reset()
 
+	defer m.abortThreads()
 	defer func() {
 		res.Decisions = append([]Decision(nil), m.decisions...)
 		res.Steps = m.steps
